@@ -121,6 +121,45 @@ pub fn attempt_vs_spec_sk<T: Corpus, const N: usize>(input: &[u8; N], start: usi
     }
 }
 
+/// Skip definitions: `skel[i] == Some(b)` fixes byte i to the concrete byte b (a byte that can take part in a skipped match),
+/// `None` makes it symbolic but constrained to bytes that cannot take part in a skip.  The number of concrete bytes bounds
+/// the number of skipped matches in front of the item.
+pub fn attempt_skeleton<T: Corpus, const N: usize>(skel: [Option<u8>; N], start: usize, skip_byte: fn(u8) -> bool, covers: bool) {
+    let mut input = [0u8; N];
+    let mut i = 0;
+    let mut fixed = 0;
+    while i < N {
+        match skel[i] {
+            Some(b) => { input[i] = b; fixed += 1; }
+            None => { let b: u8 = any(); assume(!skip_byte(b)); input[i] = b; }
+        }
+        i += 1;
+    }
+    attempt_vs_spec_sk::<T, N>(&input, start, fixed, covers);
+}
+
+/// Heavy definitions (several unrolled loops, skips): a concrete context with symbolic bytes at the positions marked `None`.
+/// All 256 values of each marked byte are explored in the lexer state reached by the concrete prefix.
+pub fn attempt_context<T: Corpus, const N: usize>(ctx: [Option<u8>; N], start: usize, max_skips: usize, covers: bool) {
+    let mut input = [0u8; N];
+    let mut i = 0;
+    while i < N {
+        match ctx[i] { Some(b) => { input[i] = b; } None => { input[i] = any(); } }
+        i += 1;
+    }
+    attempt_vs_spec_sk::<T, N>(&input, start, max_skips, covers);
+}
+
+/// profiling aids
+pub fn lex_only<T: Corpus, const N: usize>(input: &[u8; N], start: usize) {
+    let got = T::run(input, start, false);
+    check!(got.start <= got.end && got.end <= N, "span inside the source");
+}
+pub fn spec_only<T: Corpus, const N: usize>(input: &[u8; N], start: usize) {
+    let exp = expected_item(T::def(), input, start, 0);
+    check!(exp != Exp::Ambiguous, "spec not ambiguous");
+}
+
 /// relational: two definitions must agree on every attempt (C10 ignore-case expansions, C11 subpattern inlining,
 /// C12 str/bytes, C18 argument order)
 pub fn twins_agree<A: Corpus, B: Corpus, const N: usize>(input: &[u8; N], start: usize, need_utf8: bool) {
